@@ -30,7 +30,8 @@ package bttest
 //@   requires famSep(r.Families)
 //@   requires rowDesc(r)
 //@   requires btReadEpoch == epoch
-//@   requires btReadRow == obj(r)
+//@   requires obj(r) > csStart()
+//@   requires !btIterating
 //@   modifies r.Families, elems(r.Families), heap("F:bigtablepb.Family.Columns"), heap("T:*bigtablepb.Column")
 //@   modifies ghost(btCommits)
 //@   ensures btCommits == old(btCommits) + 1
@@ -114,11 +115,12 @@ package bttest
 
 //@ func (s *server) MutateRow
 //@   property C01 C06
+//@   requires !btIterating
 //@   requires req != nil
 //@   requires s.clock != nil
 //@   requires nolocks()
 //@   modifies heap("F:bigtablepb.Row.Families"), heap("T:*bigtablepb.Family"), heap("F:bigtablepb.Family.Columns"), heap("T:*bigtablepb.Column"), heap("F:bigtablepb.Column.Cells"), heap("T:*bigtablepb.Cell"), heap("F:bttest.table.lastWriteNanos"), heap("T:int64")
-//@   modifies ghost(btReadEpoch), ghost(btReadRow)
+//@   modifies ghost(btReadEpoch)
 //@   ensures (result0 == nil) <==> (result1 != nil)
 //@   ensures !old(req.TableName in s.tables) ==> result1 != nil && uf_grpcCode(result1) == codes.NotFound
 //@   ensures nolocks()
@@ -130,12 +132,13 @@ package bttest
 
 //@ func (s *server) MutateRows
 //@   property C01 C06
+//@   requires !btIterating
 //@   requires req != nil
 //@   requires stream != nil
 //@   requires s.clock != nil
 //@   requires nolocks()
 //@   modifies heap("F:bigtablepb.Row.Families"), heap("T:*bigtablepb.Family"), heap("F:bigtablepb.Family.Columns"), heap("T:*bigtablepb.Column"), heap("F:bigtablepb.Column.Cells"), heap("T:*bigtablepb.Cell"), heap("F:bttest.table.lastWriteNanos"), heap("T:int64")
-//@   modifies ghost(btReadEpoch), ghost(btReadRow)
+//@   modifies ghost(btReadEpoch)
 //@   ensures !old(req.TableName in s.tables) ==> result != nil && uf_grpcCode(result) == codes.NotFound
 //@   ensures nolocks()
 //@   loop 1 invariant res != nil && fresh(res) && len(res.Entries) == len(req.Entries) && fresh(res.Entries)
@@ -152,11 +155,12 @@ package bttest
 
 //@ func (s *server) CheckAndMutateRow
 //@   property C06 C12
+//@   requires !btIterating
 //@   requires req != nil
 //@   requires s.clock != nil
 //@   requires nolocks()
 //@   modifies heap("F:bigtablepb.Row.Families"), heap("T:*bigtablepb.Family"), heap("F:bigtablepb.Family.Columns"), heap("T:*bigtablepb.Column"), heap("F:bigtablepb.Column.Cells"), heap("T:*bigtablepb.Cell"), heap("F:bttest.table.lastWriteNanos"), heap("T:int64")
-//@   modifies ghost(btReadEpoch), ghost(btReadRow)
+//@   modifies ghost(btReadEpoch)
 //@   ensures (result0 == nil) <==> (result1 != nil)
 //@   ensures !old(req.TableName in s.tables) ==> result1 != nil && uf_grpcCode(result1) == codes.NotFound
 //@   ensures result0 != nil ==> fresh(result0)
@@ -197,11 +201,12 @@ package bttest
 
 //@ func (s *server) ReadModifyWriteRow
 //@   property C06 C13
+//@   requires !btIterating
 //@   requires req != nil
 //@   requires s.clock != nil
 //@   requires nolocks()
 //@   modifies heap("F:bigtablepb.Row.Families"), heap("T:*bigtablepb.Family"), heap("F:bigtablepb.Family.Columns"), heap("T:*bigtablepb.Column"), heap("F:bigtablepb.Column.Cells"), heap("T:*bigtablepb.Cell"), heap("F:bttest.table.lastWriteNanos"), heap("T:int64")
-//@   modifies ghost(btReadEpoch), ghost(btReadRow)
+//@   modifies ghost(btReadEpoch)
 //@   ensures (result0 == nil) <==> (result1 != nil)
 //@   ensures !old(req.TableName in s.tables) ==> result1 != nil && uf_grpcCode(result1) == codes.NotFound
 //@   ensures result0 != nil ==> fresh(result0) && result0.Row != nil
